@@ -278,10 +278,38 @@ def famJ (n : Str) (prog : List Stmt) : Bool :=
         (readsParams args ++ readsParams kwonly ++ (match returns with | some r => readsE r | none => [])).contains n
     | _ => false
 
+mutual
+  /-- some `for n in it` clause of a comprehension inside the expression has a nested comprehension / lambda in `it`
+      that reads `n` -/
+  def compVarInIter (n : Str) : Expr → Bool
+    | .comp _ elts gens => gensVarInIter n gens || compVarInIters n elts
+    | .attr e _ => compVarInIter n e
+    | .call f args => compVarInIter n f || compVarInIters n args
+    | .binop l r => compVarInIter n l || compVarInIter n r
+    | .lambda _ b => compVarInIter n b
+    | .ifExp t a b => compVarInIter n t || compVarInIter n a || compVarInIter n b
+    | .tuple es => compVarInIters n es
+    | .list es => compVarInIters n es
+    | .subscript v i => compVarInIter n v || compVarInIter n i
+    | _ => false
+  def compVarInIters (n : Str) : List Expr → Bool
+    | [] => false
+    | e :: es => compVarInIter n e || compVarInIters n es
+  def gensVarInIter (n : Str) : List Gen → Bool
+    | [] => false
+    | .mk t it ifs :: gs =>
+      ((targetNames t).contains n && (innerReads it).contains n) || compVarInIter n it || compVarInIters n ifs
+        || gensVarInIter n gs
+end
+
+/-- (l) inside a function, a comprehension variable is read by a nested comprehension / lambda in its own iterable -/
+def famL (n : Str) (prog : List Stmt) : Bool :=
+  (flatStmts prog).any fun s => (ownExprs s).any (compVarInIter n)
+
 /-- `n` falls in none of the known families for `prog` -/
 def outsideFamilies (n : Str) (prog : List Stmt) : Bool :=
   !(famA n prog || famB n prog || famC n prog || famD n prog || famE n prog || famF n prog || famG n prog
-    || famI n prog || famJ n prog)
+    || famI n prog || famJ n prog || famL n prog)
 
 /-- the soundness statement for one concrete program, as a decidable check -/
 def soundOn (builtins : Scope) (ns : List Scope) (s0 : XState) (fuel : Nat) (body calls : List Stmt) : Bool :=
